@@ -18,6 +18,7 @@
    exactly [d] with its length, charset [cs], and the invariants still hold.
    [lim16] is 65535.  A text name is stored with its terminating zero, so the
    longest permitted text name has 65534 bytes. *)
+From MptV Require Import C16.Locate.
 From MptV Require Import Base.Mem C16.IdentModel C16.IdentSpec C16.IdentProofs
   C16.IdentWorld C16.IdentHeap C16.IdentProps C16.IdentOrig.
 
@@ -197,6 +198,20 @@ Example C16_unfixed_copy_bad_free :
   end.
 Proof. vm_compute. reflexivity. Qed.
 
+(* lookup of a node by name in a sibling list (mpt_node_locate, names stored through the
+   identifier code): the traversal of the C function — forwards from a node, backwards before it,
+   or "last match" — returns exactly the k-th node whose name equals the key in that direction *)
+Theorem C16_locate_refines_spec :
+  forall names start p key,
+    (match p with LFwd k | LBwd k => 1 <= k | LLast => True end) ->
+    locate names start p key = locate_spec names start p key.
+Proof. exact locate_refines_spec. Qed.
+
+Example C16_locate_example :
+  locate [[65;66]; [67]; [65;66]; [65]]%N 3 (LBwd 2) [65;66]%N = Some 0 /\
+  locate [[65;66]; [67]; [65;66]; [65]]%N 0 LLast [65;66]%N = Some 2.
+Proof. vm_compute. auto. Qed.
+
 Print Assumptions C16_set_get.
 Print Assumptions C16_set_get_cstring.
 Print Assumptions C16_set_raw.
@@ -211,3 +226,4 @@ Print Assumptions C16_step_refines_names.
 Print Assumptions C16_heap_discipline.
 Print Assumptions C16_new_capacity.
 Print Assumptions C16_new_limit.
+Print Assumptions C16_locate_refines_spec.
